@@ -25,6 +25,7 @@ type zzCommit struct {
 
 func Harness_C12_prune() {
 	nc := zzverif.Param("commits", 3)
+	lite := zzverif.Param("lite", 0) == 1 // smaller shape space: refs are heads only and never deleted, 2 tables
 	db := zzrepo.NewObjStore()
 	rs := zzrepo.NewRefStore()
 	// three tables over shared blocks: t0 = rows A, t1 = rows A+B (shares nothing block-wise unless identical), t2 = t0's rows (same table id)
@@ -60,7 +61,11 @@ func Harness_C12_prune() {
 			tsum = absent[zzverif.Choose("absentKind", 3)]
 			shallowSeen = true
 		} else {
-			c.table = zzverif.Choose("table", len(tblSums))
+			nt := len(tblSums)
+			if lite {
+				nt = 2
+			}
+			c.table = zzverif.Choose("table", nt)
 			tsum = tblSums[c.table]
 		}
 		c.sum, _ = zzrepo.SaveCommit(db, tsum, fmt.Sprintf("c%d", i), int64(1600000000+i), ps...)
@@ -72,10 +77,13 @@ func Harness_C12_prune() {
 	anyRef := false
 	for i := 0; i < nc; i++ {
 		if zzverif.Bool("ref") {
-			k := kinds[zzverif.Choose("refKind", len(kinds))]
+			k := kinds[0]
+			if !lite {
+				k = kinds[zzverif.Choose("refKind", len(kinds))]
+			}
 			name := fmt.Sprintf("%s%d", k, i)
 			rs.Refs[name] = commits[i].sum
-			if zzverif.Bool("refDeleted") {
+			if !lite && zzverif.Bool("refDeleted") {
 				delete(rs.Refs, name)
 			} else {
 				refd[i] = true
